@@ -1,4 +1,9 @@
 from verif import Q
+try:
+    import C04_t0_part as _t0
+except Exception as _e:   # the T0-native part needs encoders/t0tool.py
+    _t0 = None
+    _t0_err = repr(_e)
 
 META = {
  "level_text": "Bounded symbolic model checking (CBMC). Currently: the C verdict plumbing of the minimal validator (start_cert/append/end_cert/end_chain/get_pkey from any context state) and, by cross-reference, the DER unit decoders used by signature verification (PKCS#1 v1.5 unpadding in C10, ECDSA ASN.1 conversion in C11). Partial: the certificate rules themselves are T0 bytecode (x509_minimal.t0); their natives are being added through the T0 native extractor (encoders/t0tool.py).",
@@ -8,7 +13,7 @@ META = {
  "outside_claim": ["full-chain equivalence with an independent validator", "real signature algebra", "T0-level rule sequencing (names chaining, BasicConstraints, KeyUsage, pathLen, validity dates) except the natives listed in the evidence"],
 }
 
-def queries():
+def _base_queries():
     qs = [Q("eqnocase-L3", "C04_trust.c", defs=["-DPART=1", "-DNL=3"], unwind=70, timeout=300, desc="eqnocase: every pair of 3-byte strings (all byte values)"),
           Q("eqnocase-L1", "C04_trust.c", defs=["-DPART=1", "-DNL=1"], unwind=70, timeout=300, desc="eqnocase: every pair of bytes"),
           Q("eqbigint", "C04_trust.c", defs=["-DPART=2"], unwind=70, timeout=300, desc="eqbigint: all operands up to 4 bytes with any leading zeros"),
@@ -16,3 +21,14 @@ def queries():
           Q("ca-anchor", "C04_trust.c", defs=["-DPART=4"], unwind=70, timeout=300, desc="check_single_trust_anchor_CA + verify_signature vs reference rule, verifier seams stubbed")]
     return qs + [Q("xm-plumbing", "C04_plumb.c", unwind=65, timeout=300,
               desc="xm_start_cert/append/end_cert/end_chain/get_pkey from any (err, num_certs, cert_length) state")]
+
+
+def queries():
+    qs = _base_queries()
+    if _t0 is not None:
+        qs = qs + _t0.queries()
+    return qs
+
+if _t0 is not None:
+    META["assumptions"] = list(META.get("assumptions", [])) + list(getattr(_t0, "ASSUMPTIONS", []))
+    META["mutants_tried"] = list(META.get("mutants_tried", [])) + list(getattr(_t0, "MUTANTS", []))
